@@ -283,4 +283,60 @@ theorem lbFrom_nil_iff (cs : List (Req × Forest)) : LBFrom [] cs ↔ AllLB cs :
   simp only [List.append_nil]
   exact ⟨fun h => h.perm (fun q => by simp), fun h => h.perm (fun q => by simp)⟩
 
+/-! ### a run over a list extended by copies of requirements it already has -/
+
+/-- two runs, the second over the requirements of the first and, in addition, requirements whose
+forest equals that of a semver-compatible requirement of the first: equivalent imports -/
+theorem ginvN_equiv_ext {W W' : Colls} {seen seen' : List (Req × Forest)} {A A' : AggState}
+    (hG : GInvN W seen A) (hG' : GInvN W' seen' A') (hsub : ∀ p, p ∈ seen → p ∈ seen')
+    (hcopy : ∀ p', p' ∈ seen' → ∃ p, p ∈ seen ∧ compat p.1.1 p'.1.1 = true ∧ p.2 = p'.2)
+    {q : Req × Forest} (hq : q ∈ seen) {F F' : Forest}
+    (hF : ImpN A (canon A.agg.redirects q.1.1) F) (hF' : ImpN A' (canon A'.agg.redirects q.1.1) F') :
+    sub (.instance F) (.instance F') = true ∧ sub (.instance F') (.instance F) = true := by
+  have hS : ∀ p : Req × Forest, p ∈ seen → p.1.1 ∈ seen.map (·.1.1) := fun p hp => List.mem_map.2 ⟨p, hp, rfl⟩
+  have hS' : ∀ p : Req × Forest, p ∈ seen' → p.1.1 ∈ seen'.map (·.1.1) := fun p hp => List.mem_map.2 ⟨p, hp, rfl⟩
+  have hq' := hsub q hq
+  have hFnd : F.namesDistinct = true := by obtain ⟨_, _, _, _, _, h⟩ := hF; exact h
+  have hF'nd : F'.namesDistinct = true := by obtain ⟨_, _, _, _, _, h⟩ := hF'; exact h
+  have cls : ∀ p, p ∈ seen → (canon A.agg.redirects p.1.1 = canon A.agg.redirects q.1.1 ↔
+      canon A'.agg.redirects p.1.1 = canon A'.agg.redirects q.1.1) := by
+    intro p hp
+    rw [hG.ninv.canon_eq_iff (hS p hp) (hS q hq), hG'.ninv.canon_eq_iff (hS' p (hsub p hp)) (hS' q hq')]
+  constructor
+  · refine hG'.tinv.glb _ F' hF' _ (nd_instance hFnd) ?_
+    intro p' hp' hcl
+    obtain ⟨p, hp, hc, hpe⟩ := hcopy p' hp'
+    have hcl' : canon A'.agg.redirects p.1.1 = canon A'.agg.redirects q.1.1 := by
+      rw [← hcl]
+      exact (hG'.ninv.canon_eq_iff (hS' p (hsub p hp)) (hS' p' hp')).2 hc
+    obtain ⟨Fp, hFp, hsp⟩ := hG.tinv.sat p hp
+    rw [(cls p hp).2 hcl'] at hFp
+    rw [hFp.det hF, hpe] at hsp
+    exact hsp
+  · refine hG.tinv.glb _ F hF _ (nd_instance hF'nd) ?_
+    intro p hp hcl
+    obtain ⟨Fp, hFp, hsp⟩ := hG'.tinv.sat p (hsub p hp)
+    rw [(cls p hp).1 hcl] at hFp
+    rw [hFp.det hF'] at hsp
+    exact hsp
+
+theorem aggregateAll_snoc (cs : List Req) (r : Req) (s : AggState) :
+    aggregateAll (cs ++ [r]) s = match aggregateAll cs s with
+      | .ok s1 => (match aggregate r.1 r.2.1 r.2.2 s1 with
+        | .ok (_, s') => .ok s'
+        | .error e => .error e)
+      | .error e => .error e := by
+  induction cs generalizing s with
+  | nil =>
+    obtain ⟨n, t, k⟩ := r
+    simp only [List.nil_append, aggregateAll]
+    cases aggregate n t k s with
+    | ok p => rfl
+    | error e => rfl
+  | cons c cs ih =>
+    rw [List.cons_append, aggregateAll_cons, aggregateAll_cons]
+    cases aggregate c.1 c.2.1 c.2.2 s with
+    | ok p => exact ih p.2
+    | error e => rfl
+
 end Wac.AggP
